@@ -79,6 +79,12 @@ structure R where
   reads : List (Nat × Bool)
 deriving Repr, Inhabited
 
+/-- result of an evaluation by the reference semantics: value and the names read, in order -/
+structure RP where
+  val : Option V
+  reads : List Nat
+deriving Repr, Inhabited
+
 mutual
 /-- library: the closure tree built by `build_expression`.
 `custom_and(l, r) = l() and r()`, `custom_or(l, r) = l() or r()`, `custom_not(p) = not p()`,
@@ -137,8 +143,8 @@ mutual
 /-- Python reference semantics (language reference 6.10–6.12): every operand at most once,
 left to right, `and`/`or` return operand values, `not` a bool, `a < b < c` is `a < b and b < c`
 with `b` evaluated once. -/
-def evalPy (S : Sem) (ρ : Env) : E → R
-  | .name n => ⟨some (ρ n), [(n, false)]⟩
+def evalPy (S : Sem) (ρ : Env) : E → RP
+  | .name n => ⟨some (ρ n), [n]⟩
   | .const v => ⟨some v, []⟩
   | .not e =>
     let r := evalPy S ρ e
@@ -160,7 +166,7 @@ def evalPy (S : Sem) (ρ : Env) : E → R
     match rl.val with
     | none => rl
     | some lv => let rc := chainPy S ρ lv c; ⟨rc.val, rl.reads ++ rc.reads⟩
-def chainPy (S : Sem) (ρ : Env) (lv : V) : Chain → R
+def chainPy (S : Sem) (ρ : Env) (lv : V) : Chain → RP
   | .last op r =>
     let rr := evalPy S ρ r
     match rr.val with
@@ -253,6 +259,11 @@ structure GR where
   reads : List (Nat × Bool)
 deriving Repr, Inhabited
 
+structure GRP where
+  val : Option Bool
+  reads : List Nat
+deriving Repr, Inhabited
+
 /-- `for c in executor: if not (bool(c()) == c.expected_value): return False; return True` -/
 def allLib (S : Sem) (ρ : Env) : List Guard → GR
   | [] => ⟨some true, []⟩
@@ -267,7 +278,7 @@ def allLib (S : Sem) (ρ : Env) : List Guard → GR
       else ⟨some false, r.reads⟩
 
 /-- the same loop with every entry evaluated as Python evaluates it -/
-def allPy (S : Sem) (ρ : Env) : List Guard → GR
+def allPy (S : Sem) (ρ : Env) : List Guard → GRP
   | [] => ⟨some true, []⟩
   | g :: gs =>
     let r := evalPy S ρ g.e
